@@ -222,6 +222,16 @@ pub fn scn_reset(o: &Opts, tr: &mut Tr, prop: &str) {
 }
 
 /// C19: clone / serde snapshots at every inter-call point, block-boundary rebuild.
+/// output bytes of a continuation: verbatim when short, length + Adler-32 (computed by the harness,
+/// not by the crate) when long
+fn out_val(b: &[u8]) -> Value {
+    if b.len() > 4000 {
+        json!({"len": b.len(), "adler": crate::comp::pair_json(crate::comp::adler_pair(b))})
+    } else {
+        bytes(b)
+    }
+}
+
 pub fn scn_snapshots(o: &Opts, tr: &mut Tr, prop: &str) {
     let mut r = gen::rng(o.seed, 1919);
     let mut srcs = sources(o, &mut r, false);
@@ -232,6 +242,16 @@ pub fn scn_snapshots(o: &Opts, tr: &mut Tr, prop: &str) {
         let cfg = Cfg { zlib: zl, level: [1u8, 6, 0, 9][k % 4], strat: 0, wbits: 15, api: "params" };
         let z = make_stream(&d, &cfg, true, &mut r);
         srcs.push(crate::scn_dec::Src { name: format!("multi{}", k), z, p: d, zlib: zl });
+    }
+    // more than one 32 KiB window of output with matches reaching (almost) a whole window back:
+    // copies taken after the streaming wrapper's window has wrapped must carry the previous lap
+    for (k, (period, n)) in [(20_000usize, 70_000usize), (32_768, 100_000), (30_000, 75_000), (32_000, 66_000)].iter().enumerate() {
+        if !o.thorough && k >= 3 { break; }
+        let d = gen::data(&format!("period{}", period), *n, &mut r);
+        let zl = k % 2 == 0;
+        let cfg = Cfg { zlib: zl, level: [6u8, 9, 1, 6][k % 4], strat: 0, wbits: 15, api: "params" };
+        let z = make_stream(&d, &cfg, false, &mut r);
+        srcs.push(crate::scn_dec::Src { name: format!("win{}", period), z, p: d, zlib: zl });
     }
     let nsample = srcs.len();
     // cheap exploration: more streams, written out only when some fork disagrees
@@ -270,7 +290,7 @@ pub fn scn_snapshots(o: &Opts, tr: &mut Tr, prop: &str) {
                         break;
                     }
                 }
-                json!({"status": last, "consumed_total": ip, "out": bytes(&out[start_op..op.min(out.len())])})
+                json!({"status": last, "consumed_total": ip, "out": out_val(&out[start_op..op.min(out.len())])})
             };
             let mut d = DecompressorOxide::new();
             let mut out = vec![0u8; osz];
@@ -321,7 +341,7 @@ pub fn scn_snapshots(o: &Opts, tr: &mut Tr, prop: &str) {
             // every fork must have finished exactly like the decoder that was never copied
             if ip == z.len() || final_status != "NeedsMoreInput" {
                 for (r0, fop) in forks.iter() {
-                    let want = json!({"status": final_status, "consumed_total": ip, "out": bytes(&out[*fop..op.min(out.len())])});
+                    let want = json!({"status": final_status, "consumed_total": ip, "out": out_val(&out[*fop..op.min(out.len())])});
                     mism |= emit_pair(tr, "copy_finishes_like_the_uninterrupted_decoder", r0, &want);
                 }
             }
@@ -347,9 +367,10 @@ pub fn scn_snapshots(o: &Opts, tr: &mut Tr, prop: &str) {
                             break;
                         }
                     }
-                    json!({"status": last, "consumed_total": ip, "out": bytes(&got)})
+                    json!({"status": last, "consumed_total": ip, "out": out_val(&got)})
                 };
-                for step in 0..60 {
+                let long = s.p.len() > 40_000;
+                for step in 0..(if long { 90 } else { 60 }) {
                     if step % 2 == 0 {
                         let fs: u64 = rs.gen();
                         let keep = st.clone();
@@ -362,8 +383,8 @@ pub fn scn_snapshots(o: &Opts, tr: &mut Tr, prop: &str) {
                     }
                     let rem = z.len() - ip;
                     if rem == 0 { break; }
-                    let ch = rs.gen_range(0..=rem.min(40));
-                    let mut o = vec![0u8; [1usize, 9, 200][rs.gen_range(0..3)]];
+                    let ch = rs.gen_range(0..=rem.min(if long { (z.len() / 40).max(40) } else { 40 }));
+                    let mut o = vec![0u8; if long { [9usize, 200, 5000, 20_000][rs.gen_range(0..4)] } else { [1usize, 9, 200][rs.gen_range(0..3)] }];
                     let rr = inflate(&mut st, &z[ip..ip + ch], &mut o, MZFlush::None);
                     ip += rr.bytes_consumed.min(ch);
                     if rr.status != Ok(miniz_oxide::MZStatus::Ok) && rr.status != Err(miniz_oxide::MZError::Buf) { break; }
